@@ -56,6 +56,9 @@ fn common_labels(case: &GenCase, a: &Analysis, st: &mut Stats) {
     if a.trace.use_frame {
         st.label("framed");
     }
+    if case.prior_calls > 0 {
+        st.label("judged call ran on a reused generator");
+    }
     if let Some(r) = &a.run {
         if r.memo_size >= 256 {
             st.label("memo>=256");
@@ -474,6 +477,9 @@ pub fn judge_c06(c: &GenCase, a: &Analysis, st: &mut Stats) -> Result<bool, Fail
         }
         return Ok(false);
     }
+    if a.output().map_or(0, |o| o.len()) > 65536 {
+        st.label("P>=4 output longer than 64 KiB");
+    }
     if frames.len() > 1 {
         return Err(Fail::new("frame-count", format!("{} FRAME opcodes", frames.len())));
     }
@@ -516,6 +522,11 @@ pub fn run_c06(ctx: &Ctx) -> Outcome {
     p45.favour = vec![MutK::Typeconfusion];
     p45.favour_pct = 80;
     drive(ctx, &mut out, 2, &p45, ctx.n(20_000, 800_000), Want::default(), judge_c06, None);
+    // long framed bodies (tens to hundreds of KiB): the length field beyond 16-bit sizes
+    let mut big = Profile::full();
+    big.protocols = vec![4, 5];
+    big.size = SizeMode::Range(6000, 14000);
+    drive(ctx, &mut out, 3, &big, ctx.n(400, 20_000), Want::default(), judge_c06, None);
     out
 }
 
